@@ -163,7 +163,8 @@ func c14Build(slots []c14Slot, part map[string]bool, issig bool) (*c14Session, e
 	if err != nil {
 		return nil, fmt.Errorf("KeyshareUserResponseRequest: %w", err)
 	}
-	s.respReq.Context = vfContext
+	// (the request is used as the library returns it - including the session context it must carry for
+	// the server to compute the same challenge)
 	return s, nil
 }
 
